@@ -289,6 +289,15 @@ def main(argv=None):
 def replay_file(scn, prop, path):
     with open(path) as f:
         doc = json.load(f)
+    if "config" not in doc and hasattr(scn, "replay_post") and doc.get("class") == "hashseed_dependence":
+        again, exact, msg = scn.replay_post(doc)
+        if again:
+            print("VIOLATION property=%s replay=%s" % (prop, path))
+            print("  class=%s exact_reproduction=%s" % (doc["class"], exact))
+            print("  %s" % msg)
+            return EXIT_VIOLATION
+        print("REPLAY property=%s file=%s: no violation reproduced" % (prop, path))
+        return EXIT_OK
     if "config" not in doc:
         # a post-batch probe violation (compiled probes, hash-seed re-execution): re-run the probe command
         print("REPLAY property=%s file=%s is a post-batch probe finding (class %s); re-run: %s" % (prop, path, doc.get("class"), doc.get("rerun") or "./check %s --tier thorough" % prop))
